@@ -71,6 +71,13 @@ fn main() {
     ctx.run_slice(Slice::new(format!("dagger-pairs-structured[{}^2]", n2), n2 * n2, |i, loc| check_dagger_pair::<B>(&st2[(i / n2) as usize], &st2[(i % n2) as usize], loc)));
     let gp: Vec<_> = ohmc::props::structured::gluing_pairs(8, 5).into_iter().filter(|p| p.1.edges.is_empty() && p.2.edges.is_empty()).collect();
     ctx.run_slice(Slice::new(format!("fusion-long-legs[{} cospan pairs, up to {} nodes]", gp.len(), gp.iter().map(|p| p.1.nodes.len() + p.2.nodes.len()).max().unwrap_or(0)), gp.len() as u64, |i, loc| check_fusion::<B>(&gp[i as usize].1, &gp[i as usize].2, loc)).heavy());
+    // dagger laws on large diagrams (sizes 33 .. 129)
+    let sizes: Vec<usize> = if ctx.quick() { vec![33, 65] } else { vec![33, 64, 65, 129] };
+    let big: Vec<_> = ohmc::props::structured::shapes_at(&sizes, false).into_iter().map(|x| x.1).collect();
+    ctx.run_slice(Slice::new(format!("dagger-structured-large[sizes {:?}: {} diagrams]", sizes, big.len()), big.len() as u64, |i, loc| check_dagger::<B>(&big[i as usize], loc)));
+    let big2: Vec<_> = big.iter().step_by(4).cloned().collect();
+    let nb2 = big2.len() as u64;
+    ctx.run_slice(Slice::new(format!("dagger-pairs-structured-large[{}^2]", nb2), nb2 * nb2, |i, loc| check_dagger_pair::<B>(&big2[(i / nb2) as usize], &big2[(i % nb2) as usize], loc)));
     let meta = Meta {
         rule: "every diagram (dagger: exact swap, involution), every pair (dagger vs tensor exactly, vs composition up to iso), every (leg, declared codomain, leg, declared codomain, node list) for the acceptance condition of spider/half_spider (strict inherent, strict trait, lax), every pair of type-matching labelled cospans for fusion (strict and lax), all pairs of object lists for identity/symmetry-as-spider".into(),
         bounds: "dagger: <=3 nodes, <=1-2 edges; pairs: <=2 nodes <=1 edge; legs of length <=2 (quick) / <=3 into codomains <=3, node lists <=3 over 2 labels; cospans: <=3 nodes, legs <=3".into(),
